@@ -86,6 +86,14 @@ func main() {
 		if alt := refwire.EncodeAll(orig, refwire.Opt{SpecPrefixOrder: true, NoGlobalSpec: true}); !bytes.Equal(alt[0], want[0]) {
 			alts = append(alts, alt[0])
 		}
+		altNames := []string{"spec-bytes", "spec-bytes(no global table spec)"}
+		if len(alts) == 1 {
+			altNames = altNames[:1]
+		}
+		if alt := refwire.EncodeAll(orig, refwire.Opt{SpecPrefixOrder: true, GlobalFlagWithNoMetadata: true}); !bytes.Equal(alt[0], want[0]) {
+			alts = append(alts, alt[0])
+			altNames = append(altNames, "spec-bytes(No_metadata with the Global_tables_spec bit)")
+		}
 		for ai, spec := range alts {
 			var dec *frame.Frame
 			var err error
@@ -93,10 +101,7 @@ func main() {
 				c.Violation(map[string]string{"kind": "spec-bytes-panic", "site": site}, fmt.Sprintf("%s: DecodeFrame panics on specification-formatted bytes: %v", cs.Name, pv), cs.Name)
 				continue
 			}
-			keyKind := "spec-bytes"
-			if ai == 1 {
-				keyKind = "spec-bytes(no global table spec)"
-			}
+			keyKind := altNames[ai]
 			if err != nil {
 				if both {
 					c.Violation(map[string]string{"kind": "body-prefix-order", "direction": "decode"}, fmt.Sprintf("%s: specification-formatted bytes (warnings before custom payload) are not decoded: %v", cs.Name, err), cs.Name)
